@@ -207,8 +207,10 @@ def run_check(pid, jobs, meta, workers=None):
     """jobs: list of (callable, kwargs). Each callable returns {'results': [...], 'encoded': [...], 'notes': [...]}.
     Writes evidence/<pid>.json, prints the outcome lines and exits with the protocol code."""
     t0 = time.time()
-    os.makedirs(os.path.join(VERIF, 'evidence'), exist_ok=True)
-    os.makedirs(os.path.join(VERIF, 'replays'), exist_ok=True)
+    # VERIF_OUT redirects evidence/ and replays/ (used when the checks are run against a seeded mutation, so that the committed evidence of /repo is not overwritten)
+    OUT = os.environ.get('VERIF_OUT') or VERIF
+    os.makedirs(os.path.join(OUT, 'evidence'), exist_ok=True)
+    os.makedirs(os.path.join(OUT, 'replays'), exist_ok=True)
     workers = workers or min(16, max(1, len(jobs)))
     tasks = [(i, fn, kw) for i, (fn, kw) in enumerate(jobs)]
     if workers > 1 and len(tasks) > 1:
@@ -264,7 +266,7 @@ def run_check(pid, jobs, meta, workers=None):
     for r in violations:
         vio_keys.setdefault(r['key'], r)
     for i, r in enumerate(vio_keys.values()):
-        path = os.path.join(VERIF, 'replays', '%s-%d.json' % (pid, i))
+        path = os.path.join(OUT, 'replays', '%s-%d.json' % (pid, i))
         json.dump({'property': pid, 'obligation': r['name'], 'key': r['key'], 'model': r.get('model'), 'replay_detail': r.get('replay_detail'),
                    'info': r.get('info')}, open(path, 'w'), indent=1, default=str)
         lines.append('VIOLATION property=%s replay=%s' % (pid, path))
@@ -309,7 +311,7 @@ def run_check(pid, jobs, meta, workers=None):
         'assumptions': meta.get('assumptions', []) + ['real-arithmetic semantics with exact source literals; floating-point rounding of finite results is outside the claim unless stated'],
         'wall_s': round(wall, 2), 'violations': len(violations),
     }
-    with open(os.path.join(VERIF, 'evidence', pid + '.json'), 'w') as f:
+    with open(os.path.join(OUT, 'evidence', pid + '.json'), 'w') as f:
         json.dump(ev, f, indent=1, default=str)
     print('%s tier=%s obligations=%d unsat=%d sat=%d unknown=%d twins=%d/%d known=%d wall=%.1fs exit=%d' % (
         pid, TIER, n_ob, n_unsat, n_sat, n_unknown, len(twins) - len(twins_bad), len(twins), len(seen_known), wall, code))
